@@ -301,7 +301,10 @@ func (c *Context) HandleEnvelop(envelop vivid.Envelop) {
 	// - 普通消息一律推入死信队列
 	// - 系统消息在 killing 阶段仍需要处理（例如子 Actor 的 OnKilled 事件），否则终止流程无法闭环
 	currentState := atomic.LoadInt32(&c.state)
-	killingOrKilled := (currentState == killed) || (!envelop.System() && currentState != running) // 是否处于停止中或死亡状态
+	// 毒杀（poison）方式的 OnKill 以普通消息投递，但与系统消息一样必须在 killing 阶段到达 onKill：
+	// 重启过程中等待子 Actor 结束时收到的终止请求需要将重启转为终止，不能作为死信丢弃。
+	_, isKill := envelop.Message().(*vivid.OnKill)
+	killingOrKilled := (currentState == killed) || (!envelop.System() && !isKill && currentState != running) // 是否处于停止中或死亡状态
 	if killingOrKilled && !c.zombie {                                                             // 是否处于僵尸状态
 		if _, isDeathLetter := envelop.Message().(ves.DeathLetterEvent); isDeathLetter && c.parent == nil {
 			// 根 Actor 自身已不在运行（系统停止中或已停止）：死信已无处可投，直接丢弃。
@@ -497,12 +500,14 @@ func (c *Context) onRestart(message *RestartMessage, behavior vivid.Behavior) {
 	// 结论：该分支在任何路径下均不可达，故注释。
 	// 注意：CAS 仍需执行以完成 running->killing 的状态转换。
 
-	// if !atomic.CompareAndSwapInt32(&c.state, running, killing) {
-	// 	return
-	// }
+	// 上述结论忽略了并发的 Kill：监管者决定重启的同时，该 Actor 可能已因其他 Actor（或其父级自身的终止）
+	// 发来的 OnKill 进入 killing 状态并正在等待子 Actor 结束。此时再接受重启会把终止悄悄变成重启，
+	// 发起终止的一方（例如等待其死亡的父级）将永远等不到 OnKilled。终止优先，忽略该重启。
+	if !atomic.CompareAndSwapInt32(&c.state, running, killing) {
+		return
+	}
 
 	// 标记正在重启
-	atomic.StoreInt32(&c.state, killing) // 取代上方 CAS 注释
 	c.restarting = message
 	c.Logger().Debug("receive restart", log.String("path", c.ref.GetPath()), log.String("reason", message.Reason), log.Any("fault", message.Fault), log.String("stack", string(message.Stack)))
 
@@ -535,6 +540,11 @@ func (c *Context) onRestart(message *RestartMessage, behavior vivid.Behavior) {
 
 func (c *Context) onKill(message *vivid.OnKill, behavior vivid.Behavior) {
 	if !c.zombie && !atomic.CompareAndSwapInt32(&c.state, running, killing) {
+		// 重启过程中（已进入 killing，正在等待子 Actor 结束）收到终止请求：放弃重启，转为真正的终止，
+		// 否则该终止请求会丢失，重启完成后 Actor 继续存活，而等待其死亡的一方将永远等待。
+		if c.restarting != nil && atomic.LoadInt32(&c.state) == killing {
+			c.restarting = nil
+		}
 		return
 	}
 	c.doKill(message, behavior)
